@@ -17,7 +17,7 @@ from ..order import Interp, Model
 from ..cfg import stmt_before, EXIT, RAISE, ENTRY
 
 FILESET = "typhon/files/fileset.py"
-EXPECT = {"C10.fifo": 3, "C10.bound": 2, "C10.flush": 1, "C10.ordered": 2, "C10.args": 3, "C10.errwrap": 2, "C10.collect": 3, "C10.align": 8}
+EXPECT = {"C10.fifo": 3, "C10.bound": 2, "C10.flush": 1, "C10.ordered": 2, "C10.args": 3, "C10.errwrap": 2, "C10.collect": 4, "C10.align": 9}
 
 
 def _queue_name(f):
@@ -268,9 +268,17 @@ def rule_collect(ctx):
     rs = enclosing_stmt(mp[0])
     rname = rs.targets[0].id if isinstance(rs, ast.Assign) and isinstance(rs.targets[0], ast.Name) else None
     its = [ic for ic in iteration_constructs(f.node) if (rname is not None and norm(ic["iter"]) == rname) or ic["iter"] is mp[0]]
-    if len(its) != 1 or len(its[0]["elts"]) != 1:
+    # the filter is the construct with a condition; plain projections of the filtered list (`[info for info, _ in kept]`) come after it
+    filt = [ic for ic in its if ic["ifs"]]
+    if len(filt) != 1 or len(filt[0]["elts"]) != 1:
         raise AnalysisError("collect: the filter over the results of map() was not found (%d candidates)" % len(its))
-    ic = its[0]
+    ic = filt[0]
+    proj = [x for x in its if x is not ic]
+    for x in proj:
+        ok_proj = isinstance(x["target"], ast.Tuple) and len(x["target"].elts) == 2 and len(x["elts"]) == 1 and str(norm(x["elts"][0])) in [str(norm(e_)) for e_ in x["target"].elts] \
+            and flow._order(enclosing_stmt(x["node"])) > flow._order(enclosing_stmt(ic["node"]))
+        if not ok_proj:
+            raise AnalysisError("collect: iteration %s over the results is neither the filter nor a projection of the filtered pairs" % str(norm(x["node"]))[:60])
     if not (isinstance(ic["target"], ast.Tuple) and len(ic["target"].elts) == 2):
         raise AnalysisError("collect: results are not unpacked into (info, content)")
     info, content = [norm(e) for e in ic["target"].elts]
@@ -283,6 +291,16 @@ def rule_collect(ctx):
            node=ic["node"], func=f)
 
     tnames = set()
+
+    # the filtered list may be EMPTY (every reader failed, no file found): it must not be split with `a, b = zip(*kept)`
+    unz = []
+    for st_ in flow.stmts:
+        if isinstance(st_, ast.Assign) and isinstance(st_.targets[0], (ast.Tuple, ast.List)) and isinstance(st_.value, ast.Call) and dotted(st_.value.func) == "zip" \
+                and any(isinstance(a_, ast.Starred) for a_ in st_.value.args):
+            unz.append(st_)
+    ctx.ob("FileSet.collect.empty", not unz, "tuple-unpacking of zip(*...): %s" % ([str(norm(u_))[:70] for u_ in unz] or "none"),
+           "infos and contents are taken from the filtered pairs without `files, data = zip(*pairs)`: with nothing left that raised ValueError (not enough values to unpack) "
+           "instead of returning []", node=unz[0] if unz else ic["node"], func=f, witness=None if not unz else {"collect": "error_to_warning=True, every reader fails", "raises": "ValueError"})
 
     def table(e, at, depth=0):
         """ordered entries of a keyword table: (key, value) or ('**', expr) for a spread of an unknown mapping"""
@@ -363,6 +381,24 @@ def rule_align(ctx):
              "counter is decremented once per use and it is evicted only at zero; no primary skips its secondaries")
     f = ctx.func(FILESET, "FileSet.align")
     flow = Flow(f)
+    # the matches are used several times (zip(*matches), indexing): they must be a list whatever iterable the caller handed in, and the
+    # split into primaries / secondaries must not be reached with no match at all
+    mname = "matches" if "matches" in f.all_params else None
+    if mname is not None:
+        unz = [st_ for st_ in flow.stmts if isinstance(st_, ast.Assign) and isinstance(st_.targets[0], (ast.Tuple, ast.List)) and isinstance(st_.value, ast.Call)
+               and dotted(st_.value.func) == "zip" and any(isinstance(a_, ast.Starred) and str(norm(a_.value)) == mname for a_ in st_.value.args)]
+        if len(unz) != 1:
+            raise AnalysisError("align: the split `primaries, secondaries = zip(*%s)` was not found" % mname)
+        ds = flow.defs(mname, unz[0])
+        as_list = all(d_ != "param" and isinstance(d_, ast.Assign) and isinstance(d_.value, ast.Call) and dotted(d_.value.func) in ("list", "sorted", "tuple") for d_ in ds)
+        guards = [st_ for st_ in flow.stmts if isinstance(st_, ast.If) and str(norm(st_.test)) in ("not %s" % mname, "len(%s) == 0" % mname, "not len(%s)" % mname)
+                  and any(isinstance(x, ast.Return) for x in st_.body)
+                  and all(flow.cfg.dominated_by(n_, set(flow.cfg.nodes(st_))) for n_ in flow.cfg.nodes(unz[0]))]
+        ctx.ob("FileSet.align.matches", as_list and bool(guards), "definitions of %s reaching the split: %s; emptiness guard: %s" % (
+            mname, [("parameter" if d_ == "param" else str(norm(d_))[:60]) for d_ in ds], [str(norm(g_.test)) for g_ in guards] or "none"),
+            "matches = list(...) on every path (a generator such as fileset.match(other) is exhausted by zip(*matches) and cannot be indexed) and `if not matches: return` "
+            "before the split (zip(*[]) cannot be unpacked)", node=unz[0], func=f,
+            witness=None if as_list and guards else {"align": "matches=a.match(other)", "raises": "TypeError: 'generator' object is not subscriptable"})
     outer = [st for st in flow.stmts if isinstance(st, ast.For) and calls_in(st.iter, "enumerate")]
     if not outer:
         raise AnalysisError("align: primary loop not found")
